@@ -4,6 +4,25 @@ META = {
 }
 
 
+def guard_obligations(which):
+    """selection typestate of every transformer class (pyvc/guardscan.py): `res` sites for C06, `line` sites for C13"""
+    import os
+    import codemodder
+    from pyvc import guardscan
+    src = os.path.dirname(os.path.dirname(os.path.abspath(codemodder.__file__)))
+    out = []
+    for o in guardscan.obligations(src):
+        out.append(dict(o, assumptions=[f"selection typestate allow-list: {k[0]} {k[1]}.{k[2]} - {v}" for k, v in guardscan.ALLOW.items()]
+                        + ["selection typestate: a guard call counts whatever node it is asked about (that the filtered node IS the edited node is not checked)"]))
+    n = len(out)
+    out.append({"id": "G/coverage [the scan sees the transformer classes]", "func": "pyvc.guardscan", "kind": "selection-typestate", "label": None,
+                "status": "discharged" if n >= 100 else "undecided", "backend": "typestate scan", "secs": 0.0,
+                "reason": "" if n >= 100 else f"unknown: only {n} change-recording sites were found (at least 100 expected): the scan is not seeing the code",
+                "model": None, "path_notes": [f"{n} change-recording sites in the two packages"], "goal_size": 0, "replay": None,
+                "clause": "vacuity guard: the scan must find the change-recording sites"})
+    return out
+
+
 def extra_checks(tier="quick", seed=0):
     from contracts.props.readers_bounded import run
-    return [r for r in run(tier, seed) if "Sonar" in r["id"] or "DefectDojo" in r["id"]]
+    return [r for r in run(tier, seed) if "Sonar" in r["id"] or "DefectDojo" in r["id"]] + guard_obligations("res")
